@@ -23,7 +23,7 @@ if [[ "$PHASE" == *A* ]]; then
 fi
 if [[ "$PHASE" == *B* ]]; then
   ( cd "$WT" && git apply "$M/patch.diff" ) || exit 4
-  for seed in 0 1; do
+  for seed in ${EVAL_SEEDS:-0 1}; do
     ( cd /verif && VERIF_REPO="$WT" VERIF_SEED=$seed VERIF_EVIDENCE_DIR="$OUT/evidence" VERIF_REPLAY_DIR="$OUT/replays" timeout 1800 ./check "$PID" --tier quick > "$OUT/b_seed$seed.log" 2>&1 ); echo "seed$seed rc=$? viol=$(grep -c '^VIOLATION' "$OUT/b_seed$seed.log")" >> "$OUT/b.txt"
   done
 fi
